@@ -44,7 +44,8 @@ def analyse28(ck):
                    lambda t: (P.call_name(t) or "").endswith("circuit::log2_ceil") and P.param_path(t[4][0]) == "config.max_quotient_degree_factor")
     ob.add({"C28"}, len(h) == 1 and h[0]["outcome"] <= {"err"}, "CMP", "policy/rate>=log2ceil(quotient)", "rejects rate_bits < log2_ceil(max_quotient_degree_factor)", h[0]["loc"] if h else mv.loc0)
     # positive knobs: loop over [(name, value); 3]
-    h = mv.rejects("Le", lambda t: isinstance(t, tuple) and t[0] == "fld" and t[2] == "1" and isinstance(t[1], tuple) and t[1][0] == "elem", lambda t: P.const_of(t) == 0)
+    # the rejected set of the (unsigned) knob value is exactly {0}, however the comparison is spelt (`!(v > 0)`, `v == 0`, `v < 1`)
+    h = [g for g, ivs, _ in guards.rejected_sets(mv.gt, lambda t: isinstance(t, tuple) and t[0] == "fld" and t[2] == "1" and isinstance(t[1], tuple) and t[1][0] == "elem") if ivs == [(0, 0)]]
     okp = len(h) == 1 and h[0]["outcome"] <= {"err"}
     if okp:
         arr = h[0]["cond"]
